@@ -403,3 +403,284 @@ Proof.
     rewrite app_nil_r, norm_rep; cbn; destruct r; cbn; apply repl_nil.
 Qed.
 
+
+Lemma hdr_nonglobal : forall c sh r,
+  c_safe c = false -> ((match s_mode sh with MColl => true | _ => false end) && c_hcoll c) = false ->
+  norm (match s_mode sh with MDefine => [] | _ => write_header c sh r end) = [].
+Proof.
+  intros c sh r S H. unfold write_header. rewrite S.
+  destruct (s_mode sh); [reflexivity | |]; rewrite app_nil_r;
+    destruct (c_hcoll c); try reflexivity; cbn in H; try discriminate H.
+  rewrite norm_rep. destruct r; cbn; apply repl_nil.
+Qed.
+
+Lemma root_hdr : forall c sh r1 r2,
+  norm (match s_mode sh with MDefine => [] | _ => write_header c sh r1 end) =
+  norm (match s_mode sh with MDefine => [] | _ => write_header c sh r2 end).
+Proof. intros. destruct (s_mode sh); [reflexivity | |]; apply root_write_header. Qed.
+
+Lemma class_meta : forall c sh g r1 r2 m q1 q2,
+  sync_class c sh (A_meta m) (LMeta q1) = sync_class c sh (A_meta m) (LMeta q2) ->
+  norm (ctrace c sh (A_meta m) g r1 (LMeta q1)) = norm (ctrace c sh (A_meta m) g r2 (LMeta q2)).
+Proof.
+  intros c sh g r1 r2 m q1 q2 H. unfold ctrace, exec. destruct (multi c); [|reflexivity]. cbn [negb].
+  cbn [sync_class] in H. unfold meta_exec, meta_hdr_global in *.
+  destruct (c_safe c) eqn:S; cbn [negb andb orb] in H.
+  - rewrite ?orb_false_r, ?andb_true_r in H.
+    destruct (m_e0 q1 =? 0), (m_e0 q2 =? 0); cbn [negb] in *; try discriminate H; [|reflexivity].
+    destruct m; cbn [metadesc_of md_ar1 md_bcs md_ar2 md_dbcs md_dar md_keep_own md_post md_header osite csites map andb];
+      rewrite ?andb_true_r, ?andb_false_r;
+      brk; cbn [fst]; rewrite ?norm_app; rewrite ?(root_write_header c sh r1 r2); try reflexivity.
+  - destruct (md_header (metadesc_of m)) eqn:Hd; cbn [andb] in H.
+    + destruct (m_e0 q1 =? 0), (m_e0 q2 =? 0), (first_err (m_e1 q1) (m_e3 q1) =? 0), (first_err (m_e1 q2) (m_e3 q2) =? 0);
+        cbn [negb orb andb fst] in *; try reflexivity; try apply root_hdr;
+        (destruct ((match s_mode sh with MColl => true | _ => false end) && c_hcoll c) eqn:G; [discriminate H|]);
+        rewrite (hdr_nonglobal c sh _ S G); reflexivity.
+    + assert (E : (match s_mode sh with MDefine => [] | _ => @nil cop end) = []) by (destruct (s_mode sh); reflexivity).
+      destruct (m_e0 q1 =? 0), (m_e0 q2 =? 0), (first_err (m_e1 q1) (m_e3 q1) =? 0), (first_err (m_e1 q2) (m_e3 q2) =? 0);
+        cbn [negb fst]; rewrite ?E; reflexivity.
+Qed.
+
+Lemma class__enddef : forall c sh g r1 r2 q1 q2,
+  sync_class c sh A__enddef (LMeta q1) = sync_class c sh A__enddef (LMeta q2) ->
+  norm (ctrace c sh A__enddef g r1 (LMeta q1)) = norm (ctrace c sh A__enddef g r2 (LMeta q2)).
+Proof.
+  intros c sh g r1 r2 q1 q2 H. unfold ctrace, exec. destruct (multi c); [|reflexivity]. cbn [negb].
+  cbn [sync_class] in H.
+  destruct (s_mode sh); cbn [andb] in H; rewrite ?andb_false_r in H.
+  - destruct (c_safe c); cbn [negb andb] in H.
+    + destruct (g_min1 g =? 0); cbn [fst stop]; [|reflexivity].
+      destruct (g_min2 g =? 0); cbn [fst stop]; [|reflexivity].
+      rewrite !norm_app. rewrite (root_enddef_driver c sh r1 r2). reflexivity.
+    + destruct (m_e1 q1 =? 0), (m_e1 q2 =? 0); cbn in H; try discriminate H; cbn [fst stop]; try reflexivity.
+      apply root_enddef_driver.
+  - destruct (c_safe c); reflexivity.
+  - destruct (c_safe c); reflexivity.
+Qed.
+
+Lemma class_create : forall c sh g r1 r2 q1 q2,
+  sync_class c sh A_create (LMeta q1) = sync_class c sh A_create (LMeta q2) ->
+  norm (ctrace c sh A_create g r1 (LMeta q1)) = norm (ctrace c sh A_create g r2 (LMeta q2)).
+Proof.
+  intros c sh g r1 r2 q1 q2 H. unfold ctrace, exec. destruct (multi c); [|reflexivity]. cbn [negb].
+  cbn [sync_class] in H.
+  destruct (m_e0 q1 =? 0), (m_e0 q2 =? 0); try discriminate H; cbn [negb fst stop]; [|reflexivity].
+  destruct (s_noclobber sh); [destruct (s_exists_err sh)|]; cbn [fst stop]; try reflexivity;
+    rewrite !norm_app; rewrite (root_aggr_init c r1 r2); reflexivity.
+Qed.
+
+Lemma class_open : forall c sh g r1 r2 q1 q2,
+  sync_class c sh A_open (LMeta q1) = sync_class c sh A_open (LMeta q2) ->
+  norm (ctrace c sh A_open g r1 (LMeta q1)) = norm (ctrace c sh A_open g r2 (LMeta q2)).
+Proof.
+  intros c sh g r1 r2 q1 q2 H. unfold ctrace, exec. destruct (multi c); [|reflexivity]. cbn [negb].
+  cbn [sync_class] in H.
+  destruct (m_e0 q1 =? 0), (m_e0 q2 =? 0); try discriminate H; cbn [negb fst stop]; [|reflexivity].
+  destruct (s_exists_err sh); cbn [fst stop]; [reflexivity|].
+  rewrite !norm_app, !norm_rep. rewrite (root_aggr_init c r1 r2), (root_hdr_fetch c r1 r2). reflexivity.
+Qed.
+
+(* calls without per-rank arguments *)
+Lemma class_noarg : forall c sh g r1 r2 a,
+  admissible a LNone = true ->
+  norm (ctrace c sh a g r1 LNone) = norm (ctrace c sh a g r2 LNone).
+Proof.
+  intros c sh g r1 r2 a A. unfold ctrace, exec. destruct (multi c); [|reflexivity]. cbn [negb].
+  destruct a; cbn in A; try discriminate A.
+  - (* enddef *) destruct (s_mode sh); cbn [fst stop]; try reflexivity.
+    rewrite !norm_app. rewrite (root_enddef_driver c sh r1 r2). reflexivity.
+  - (* redef *) destruct (s_rdonly sh); [reflexivity|]. destruct (s_mode sh) eqn:M; cbn [fst stop]; try reflexivity; apply root_end_indep.
+  - (* begin_indep *) destruct (s_mode sh); reflexivity.
+  - (* end_indep *) destruct (s_mode sh); cbn [fst stop]; try reflexivity; apply root_end_indep.
+  - (* sync *) destruct (s_mode sh) eqn:M; [reflexivity | |]; destruct (s_rdonly sh); cbn [fst]; try reflexivity.
+    rewrite !norm_app. destruct (0 <? s_nrecvars sh); [|reflexivity].
+    rewrite (root_sync_numrecs_indep c sh r1 r2). reflexivity.
+  - (* sync_numrecs *) destruct (s_mode sh); cbn [fst stop]; try reflexivity;
+      destruct ((0 <? s_nrecvars sh) && s_rdonly sh); cbn [fst stop]; try reflexivity. apply root_sync_numrecs_indep.
+  - (* close *) cbn [fst]. rewrite !norm_app. f_equal.
+    + destruct (s_mode sh); try reflexivity. apply root_enddef_driver.
+    + f_equal. destruct (negb (s_rdonly sh)); [apply root_end_indep | reflexivity].
+  - (* abort *) cbn [fst]. rewrite !norm_app. f_equal.
+    destruct (s_isnew sh); [reflexivity|]. destruct (negb (s_rdonly sh)); [apply root_end_indep | reflexivity].
+Qed.
+
+Lemma class_close_pend : forall c sh g r1 r2 w1 w2,
+  norm (ctrace c sh A_close g r1 (LWait w1)) = norm (ctrace c sh A_close g r2 (LWait w2)).
+Proof.
+  intros. unfold ctrace, exec. destruct (multi c); [|reflexivity]. cbn [negb fst].
+  rewrite !norm_app. f_equal.
+  - destruct (s_mode sh); try reflexivity. apply root_enddef_driver.
+  - f_equal. destruct (negb (s_rdonly sh)); [apply root_end_indep | reflexivity].
+Qed.
+
+Lemma class_close_mixed : forall c sh g r1 r2 l1 l2,
+  admissible A_close l1 = true -> admissible A_close l2 = true ->
+  norm (ctrace c sh A_close g r1 l1) = norm (ctrace c sh A_close g r2 l2).
+Proof.
+  intros c sh g r1 r2 l1 l2 A1 A2.
+  destruct l1; cbn in A1; try discriminate A1; destruct l2; cbn in A2; try discriminate A2;
+    unfold ctrace, exec; (destruct (multi c); [|reflexivity]); cbn [negb fst];
+    rewrite !norm_app; (f_equal; [destruct (s_mode sh); try reflexivity; apply root_enddef_driver |
+                                  f_equal; destruct (negb (s_rdonly sh)); [apply root_end_indep | reflexivity]]).
+Qed.
+
+(* THE CORE LEMMA: the observable sequence of a call on one rank is a function of the
+   configuration, the shared state, the results of the reductions and the rank's sync_class only *)
+Lemma norm_class : forall c sh a g r1 r2 l1 l2,
+  admissible a l1 = true -> admissible a l2 = true ->
+  wf_local l1 = true -> wf_local l2 = true ->
+  sync_class c sh a l1 = sync_class c sh a l2 ->
+  norm (ctrace c sh a g r1 l1) = norm (ctrace c sh a g r2 l2).
+Proof.
+  intros c sh a g r1 r2 l1 l2 A1 A2 W1 W2 H.
+  destruct a; try (apply class_close_mixed; assumption);
+    destruct l1; cbn in A1; try discriminate A1; destruct l2; cbn in A2; try discriminate A2.
+  - apply class_create; assumption.
+  - apply class_open; assumption.
+  - apply class_noarg; reflexivity.
+  - apply class__enddef; assumption.
+  - apply class_noarg; reflexivity.
+  - apply class_noarg; reflexivity.
+  - apply class_noarg; reflexivity.
+  - apply class_noarg; reflexivity.
+  - apply class_noarg; reflexivity.
+  - apply class_noarg; reflexivity.
+  - apply class_getput; assumption.
+  - apply class_varn; assumption.
+  - apply class_vard; assumption.
+  - apply class_mgetput; assumption.
+  - apply class_wait_all.
+  - apply class_fill; assumption.
+  - apply class_meta; assumption.
+Qed.
+
+(* ================================================================== all ranks of one call *)
+Definition ranks_ok (a : api) (ls : list local) : Prop :=
+  Forall (fun l => admissible a l = true /\ wf_local l = true) ls.
+
+(* the sequences of collectives of all ranks of one call: rank i passes (nth i ls) *)
+Definition traces (c : cfg) (sh : shared) (a : api) (ls : list local) : list trace := map fst (run c sh a ls).
+
+(* every two ranks execute the same observable sequence of collectives *)
+Definition all_match (ts : list trace) : Prop := forall t1 t2, In t1 ts -> In t2 ts -> norm t1 = norm t2.
+
+Lemma in_run_from : forall c sh a g ls i p,
+  In p (run_from c sh a g i ls) -> exists l root, In l ls /\ p = exec c sh a g root l.
+Proof.
+  induction ls as [|l ls IH]; intros i p H; cbn in H; [contradiction|].
+  destruct H as [H | H].
+  - exists l, (Nat.eqb i 0). split; [left; reflexivity | symmetry; exact H].
+  - destruct (IH _ _ H) as [l' [r [Hin Hp]]]. exists l', r. split; [right; exact Hin | exact Hp].
+Qed.
+
+Lemma in_traces : forall c sh a ls t,
+  In t (traces c sh a ls) -> exists l root, In l ls /\ t = ctrace c sh a (gsum_ranks sh a ls) root l.
+Proof.
+  intros c sh a ls t H. unfold traces in H. apply in_map_iff in H. destruct H as [p [Hp Hin]].
+  apply in_run_from in Hin. destruct Hin as [l [r [Hl He]]]. exists l, r. split; [exact Hl|].
+  subst. reflexivity.
+Qed.
+
+Lemma nth_run_from : forall c sh a g ls i k l,
+  nth_error ls k = Some l -> nth_error (run_from c sh a g i ls) k = Some (exec c sh a g (Nat.eqb (i + k) 0) l).
+Proof.
+  induction ls as [|x ls IH]; intros i k l H; destruct k; cbn in *; try discriminate H.
+  - inversion H; subst. rewrite Nat.add_0_r. reflexivity.
+  - rewrite (IH (S i) k l H). rewrite Nat.add_succ_r. reflexivity.
+Qed.
+
+(* ---- the boolean verdict computed by the check is the proposition ---- *)
+Lemma nop_eqb_eq : forall x y, nop_eqb x y = true <-> x = y.
+Proof.
+  intros [k1 t1] [k2 t2]. unfold nop_eqb; cbn. split.
+  - intro H. apply andb_true_iff in H. destruct H as [H1 H2].
+    apply internal_ckind_dec_bl in H1. apply internal_target_dec_bl in H2. subst. reflexivity.
+  - intro H. inversion H; subst. rewrite internal_ckind_dec_lb, internal_target_dec_lb; reflexivity.
+Qed.
+
+Lemma list_eqb_eq : forall (A : Type) (eqb : A -> A -> bool), (forall x y, eqb x y = true <-> x = y) ->
+  forall a b, list_eqb eqb a b = true <-> a = b.
+Proof.
+  intros A eqb E. induction a as [|x a IH]; destruct b as [|y b]; cbn; split; intro H; try reflexivity; try discriminate H.
+  - apply andb_true_iff in H. destruct H as [H1 H2]. apply E in H1. apply IH in H2. subst. reflexivity.
+  - inversion H; subst. apply andb_true_iff. split; [apply E; reflexivity | apply IH; reflexivity].
+Qed.
+
+Lemma all_equal_spec : forall (A : Type) (eqb : A -> A -> bool), (forall x y, eqb x y = true <-> x = y) ->
+  forall l, all_equal eqb l = true <-> (forall x y, In x l -> In y l -> x = y).
+Proof.
+  intros A eqb E. induction l as [|x l IH]; [cbn; split; [intros _ ? ? []| reflexivity]|].
+  destruct l as [|y l].
+  - cbn. split; [|reflexivity]. intros _ a b [Ha|[]] [Hb|[]]. subst. reflexivity.
+  - change (all_equal eqb (x :: y :: l)) with (eqb x y && all_equal eqb (y :: l)).
+    rewrite andb_true_iff, IH, E. split.
+    + intros [Hxy Hl] a b Ha Hb.
+      assert (K : forall z, In z (x :: y :: l) -> z = y).
+      { intros z [Hz|Hz]; [rewrite <- Hz; exact Hxy | apply Hl; [exact Hz | left; reflexivity]]. }
+      rewrite (K a Ha), (K b Hb). reflexivity.
+    + intro H. split; [apply H; [left; reflexivity | right; left; reflexivity]|].
+      intros a b Ha Hb. apply H; right; assumption.
+Qed.
+
+Lemma traces_match_spec : forall ts, traces_match ts = true <-> all_match ts.
+Proof.
+  intro ts. unfold traces_match, all_match.
+  rewrite (all_equal_spec _ _ (list_eqb_eq _ _ nop_eqb_eq)). split.
+  - intros H t1 t2 H1 H2. apply H; apply in_map; assumption.
+  - intros H x y Hx Hy. apply in_map_iff in Hx. apply in_map_iff in Hy.
+    destruct Hx as [t1 [E1 I1]]. destruct Hy as [t2 [E2 I2]]. subst. apply H; assumption.
+Qed.
+
+(* ================================================================== collective_match *)
+(* FULL statement of the property: whatever each process passes, all ranks execute the same
+   sequence of collectives *)
+Definition collective_match_full : Prop :=
+  forall c sh a ls, ranks_ok a ls -> all_match (traces c sh a ls).
+
+(* PARTIAL: it holds for every assignment whose ranks agree on sync_class *)
+Theorem collective_match_partial : forall c sh a ls,
+  ranks_ok a ls ->
+  (forall l1 l2, In l1 ls -> In l2 ls -> sync_class c sh a l1 = sync_class c sh a l2) ->
+  all_match (traces c sh a ls).
+Proof.
+  intros c sh a ls OK H t1 t2 H1 H2.
+  apply in_traces in H1. apply in_traces in H2.
+  destruct H1 as [l1 [r1 [I1 E1]]]. destruct H2 as [l2 [r2 [I2 E2]]]. subst.
+  unfold ranks_ok in OK. rewrite Forall_forall in OK.
+  destruct (OK _ I1) as [A1 W1]. destruct (OK _ I2) as [A2 W2].
+  apply norm_class; auto.
+Qed.
+
+(* the hypothesis is satisfiable on a non-trivial instance: three ranks, one valid, one zero-length,
+   one with an invalid start, collective put on a FIXED-size variable *)
+Definition cfg0 (np : Z) : cfg := mkCfg false false false false np 0.
+Definition sh_data : shared := mkSh MColl false false 6 2 2 false 1 false false false false [] [] 0 0 0 0 0 0.
+Definition req_ok (vk : vkind) (newrec : Z) : local := LReq (mkReq 0 false vk true 0 true newrec false 1).
+Definition req_zero (vk : vkind) : local := LReq (mkReq 0 false vk false 0 true 2 false 1).
+Definition req_bad (e : Z) (vk : vkind) : local := LReq (mkReq e false vk true 0 true 2 false 1).
+
+Example collective_match_partial_nonvacuous :
+  let ls := [req_ok VFixed 2; req_zero VFixed; req_bad NC_EINVALCOORDS VFixed] in
+  ranks_ok (A_getput false AK_vara) ls /\
+  (forall l1 l2, In l1 ls -> In l2 ls ->
+     sync_class (cfg0 3) sh_data (A_getput false AK_vara) l1 = sync_class (cfg0 3) sh_data (A_getput false AK_vara) l2) /\
+  traces (cfg0 3) sh_data (A_getput false AK_vara) ls <> [[]; []; []].
+Proof.
+  cbn zeta. split; [|split].
+  - repeat constructor.
+  - intros l1 l2 H1 H2. cbn in H1, H2.
+    destruct H1 as [H1|[H1|[H1|[]]]]; destruct H2 as [H2|[H2|[H2|[]]]]; subst; reflexivity.
+  - vm_compute. discriminate.
+Qed.
+
+(* REFUTED (F4): a collective put on a RECORD variable, rank 0 valid, rank 1 with an invalid start:
+   rank 0 executes the numrecs Allreduce of put_varm, rank 1 (ncmpio_getput_zero_req) does not *)
+Definition F4_witness : list local := [req_ok VRecord 3; req_bad NC_EINVALCOORDS VRecord].
+
+Theorem collective_match_refuted : ~ collective_match_full.
+Proof.
+  intro H.
+  assert (OK : ranks_ok (A_getput false AK_vara) F4_witness) by (repeat constructor).
+  specialize (H (cfg0 2) sh_data (A_getput false AK_vara) F4_witness OK).
+  apply traces_match_spec in H. vm_compute in H. discriminate H.
+Qed.
